@@ -1,5 +1,6 @@
 import Driver.Proto
 import SimuVerif.Model.Pipeline
+import SimuVerif.Model.Tissue
 /-
   Model driver of C14 (assembled iteration of a single free cell): runs `Pipeline.cellIteration` at `Float`, i.e. the
   very definition the theorems of Properties/C14Pipeline.lean are about, from an initial state taken from the first
@@ -17,6 +18,19 @@ import SimuVerif.Model.Pipeline
     S <iteration> <time> 1
     C 0 0 <type 0> <nn> <nf> <area> <volume> <target volume> <pressure>
     P … / M … / T …
+  then END (or `bad-op`).
+
+  Assembled iteration of a TISSUE (`Tissue.tissueIteration`, Properties/C14Tissue.lean); the initial state is the first
+  snapshot of `h_solver … tissue`:
+    tissue <n> <every> <ncells>  dt damping lmin cutAdh cutRep  <iteration> time
+        per cell: <kind> <nn> <nf> <nt>  K maxP aem iso angf minVol growth divVol density maxCurv
+                  nt × (surface_tension bending_modulus repulsion_strength)   area volume target_volume pressure
+                  nn × (x y z)  nn × (px py pz)  nn × (fx fy fz)  nn × (nx ny nz)  nn × curvature  nn × (cell node | - -)
+                  nn × closest²  nf × (n1 n2 n3 type)  nf × (nx ny nz area)
+  answer: H wf <0|1>  H setup <0|1>   (the decidable hypotheses of the theorems on this instance: `cellWf` of every cell;
+          0 ≤ delta, 0 < padding, 0 < voxel size), then for k = 0 … n
+    O <iteration> <preOk of the state ∧ postOk of its successor 0|1>     (= `stepOk`; not printed for k = n)
+    and when k % every = 0 or k = n the lines of `h_solver … tissue`: S, and per cell C P M T N V Q D F A
   then END (or `bad-op`).
 -/
 open Simu Simu.Forces Simu.Pipeline Driver
@@ -84,6 +98,118 @@ def parseRun (args : List String) : Option (Consts Float × Nat × Nat × State 
       area := h 1, volume := h 2, tvol := h 3, pressure := h 4 }
   pure (c, n, every, s)
 
+/-! ### tissue -/
+namespace TissueDrv
+open Simu.Tissue
+
+abbrev P := StateT Nat (ReaderT (Array String) Option)
+
+def tok : P String := do
+  let i ← get
+  let a ← read
+  if h : i < a.size then
+    set (i + 1)
+    pure a[i]
+  else failure
+
+def pNat : P Nat := do
+  match (← tok).toNat? with
+  | some n => pure n
+  | none => failure
+
+def pF : P Float := do
+  match parseF (← tok) with
+  | some x => pure x
+  | none => failure
+
+def pV : P (V3 Float) := do
+  let x ← pF; let y ← pF; let z ← pF
+  pure ⟨x, y, z⟩
+
+def pMany {α : Type} (n : Nat) (p : P α) : P (Array α) := do
+  let mut a : Array α := Array.mkEmpty n
+  for _ in [0:n] do
+    a := a.push (← p)
+  pure a
+
+def pCoup : P (Option (Nat × Nat)) := do
+  let a ← tok; let b ← tok
+  if a == "-" then pure none else
+  match a.toNat?, b.toNat? with
+  | some x, some y => pure (some (x, y))
+  | _, _ => failure
+
+def pCell : P (Cell Float) := do
+  let kind ← pNat; let nn ← pNat; let nf ← pNat; let nt ← pNat
+  let K ← pF; let maxP ← pF; let aem ← pF; let iso ← pF; let angf ← pF; let minVol ← pF; let growth ← pF
+  let divVol ← pF; let density ← pF; let maxCurv ← pF
+  let fts ← pMany nt (do let t ← pF; let b ← pF; let r ← pF; pure (t, b, r))
+  let area ← pF; let volume ← pF; let tvol ← pF; let pressure ← pF
+  let pos ← pMany nn pV; let mom ← pMany nn pV; let force ← pMany nn pV; let normal ← pMany nn pV
+  let curv ← pMany nn pF; let coup ← pMany nn pCoup; let sqd ← pMany nn pF
+  let faces ← pMany nf (do let a ← pNat; let b ← pNat; let c ← pNat; let t ← pNat; pure (⟨a, b, c, t⟩ : Face))
+  let fgeom ← pMany nf (do let v ← pV; let a ← pF; pure (v, a))
+  if faces.any (fun f => f.a ≥ nn || f.b ≥ nn || f.c ≥ nn || f.ty ≥ nt) then failure
+  let k : CellK Float :=
+    { kind := kind, K := K, maxP := maxP, aem := aem, iso := iso, angf := angf, minVol := minVol, growth := growth,
+      divVol := divVol, density := density, maxCurv := maxCurv,
+      ft := fts.toList.map (fun t => ⟨t.1, t.2.1⟩), rep := fts.toList.map (fun t => t.2.2) }
+  pure { k := k, pos := ⟨pos, fun _ => ⟨0, 0, 0⟩⟩, mom := mom, force := force, normal := normal, curv := curv, coup := coup,
+         sqd := sqd, faces := faces.toList, fgeom := fgeom, area := area, volume := volume, tvol := tvol, pressure := pressure }
+
+def dblMax : Float := Float.ofBits 0x7FEFFFFFFFFFFFFF
+def dblInf : Float := Float.ofBits 0x7FF0000000000000
+def piF : Float := Float.ofBits 0x400921FB54442D18
+def cosDeg (d : Nat) : Float := Float.cos (Float.ofNat d * piF / 180.0)
+
+def pTissue : P (Tissue.Consts Float × Nat × Nat × Tissue.State Float) := do
+  let n ← pNat; let every ← pNat; let nc ← pNat
+  if every == 0 then failure
+  let dt ← pF; let damping ← pF; let lmin ← pF; let cutAdh ← pF; let cutRep ← pF
+  let it ← pNat; let time ← pF
+  let cells ← pMany nc pCell
+  let i ← get
+  if i ≠ (← read).size then failure
+  let K : Tissue.Consts Float :=
+    { dt := dt, damping := damping, lmin := lmin, cutAdh := cutAdh, cutRep := cutRep,
+      dotAdh := cosDeg Gen.dotAdhDeg1, dotRep := cosDeg Gen.dotRepDeg1, big := dblMax, inf := dblInf, delta := Gen.gridDeltaFloat }
+  pure (K, n, every, { iter := it, time := time, cells := cells.toList, defined := true })
+
+def showArr {α : Type} (a : Array α) (f : α → String) : String := a.foldl (fun s v => s ++ " " ++ f v) ""
+
+def showCell (ci : Nat) (c : Cell Float) : List String :=
+  [s!"C {ci} {ci} {c.k.kind} {c.nn} {c.faces.length} {showF c.area} {showF c.volume} {showF c.tvol} {showF c.pressure}",
+   "P" ++ showArr c.pos.arr showV,
+   "M" ++ showArr c.mom showV,
+   "T" ++ c.faces.foldl (fun acc f => acc ++ s!" {f.a} {f.b} {f.c} {f.ty}") "",
+   "N" ++ showArr c.normal showV,
+   "V" ++ showArr c.curv showF,
+   "Q" ++ showArr c.coup (fun q => match q with | some (a, b) => s!"{a} {b}" | none => "- -"),
+   "D" ++ showArr c.sqd showF,
+   "F" ++ showArr c.force showV,
+   "A" ++ showArr c.fgeom (fun g => s!"{showV g.1} {showF g.2}")]
+
+def showTissue (s : Tissue.State Float) : List String :=
+  s!"S {s.iter} {showF s.time} {s.cells.length}" :: (s.cells.zipIdx.flatMap fun ci => showCell ci.2 ci.1)
+
+def simulate (out : IO.FS.Stream) (K : Tissue.Consts Float) (n every : Nat) (s0 : Tissue.State Float) : IO Unit := do
+  let fn := Fn.float
+  let fx := FX.float
+  let P := cparams K
+  out.putStrLn s!"H wf {if s0.cells.all cellWf then 1 else 0}"
+  out.putStrLn s!"H setup {if 0.0 ≤ K.delta && 0.0 < P.padding && 0.0 < P.voxel then 1 else 0}"
+  let mut s := s0
+  for k in [0:n+1] do
+    if k % every == 0 || k == n then
+      for l in showTissue s do out.putStrLn l
+    if k < n then
+      let s' := tissueIteration fn fx K s
+      out.putStrLn s!"O {s.iter} {if preOk K s && postOk s' then 1 else 0}"
+      s := s'
+  out.putStrLn "END"
+
+end TissueDrv
+
 partial def loop (h : IO.FS.Stream) (out : IO.FS.Stream) : IO Unit := do
   let line ← h.getLine
   if line.isEmpty then return ()
@@ -91,6 +217,10 @@ partial def loop (h : IO.FS.Stream) (out : IO.FS.Stream) : IO Unit := do
   | "run" :: args =>
     match parseRun args with
     | some (c, n, every, s) => simulate out c n every s
+    | none => out.putStrLn "bad-op"
+  | "tissue" :: args =>
+    match (TissueDrv.pTissue.run 0).run args.toArray with
+    | some ((K, n, every, s), _) => TissueDrv.simulate out K n every s
     | none => out.putStrLn "bad-op"
   | [] => pure ()
   | _ => out.putStrLn "bad-op"
